@@ -1,17 +1,16 @@
-\* quick, exhaustive: priority / offline / tracking focus. 2 users with every status on the server, friend and
-\* privilege; the client learns a status only while it watches the user; limit 0 raised once.
+\* quick, exhaustive: 2 users with one upload each, limit 1 changed once, unbounded life cycles. 99 = Unbounded.
 SPECIFICATION Spec
 CONSTANTS
   UploadIds = {1, 3}
   PerUser = 2
-  MaxSlots = 1
-  InitSlots = {0}
+  MaxSlots = 2
+  InitSlots = {1}
   InitTruth = {"unknown"}
-  AnyInitAttr = TRUE
+  AnyInitAttr = FALSE
   Statuses = {"unknown", "offline", "away", "online"}
   SlotBudget = 1
   AttrBudget = 0
-  LifeBudget = 0
+  LifeBudget = 99
   TrackMgmt = TRUE
   GrantAll = FALSE
   UseUploadingUsers = TRUE
